@@ -558,6 +558,15 @@ def generate_literal_struct_name(
     return name
 
 
+# Strict and reserved keywords of Rust (2018+): a field cannot be named like one of these.
+RUST_KEYWORDS = frozenset(
+    "as async await break const continue crate dyn else enum extern false fn for if impl in "
+    "let loop match mod move mut pub ref return self static struct super trait true type "
+    "unsafe use where while abstract become box do final macro override priv try typeof "
+    "unsized virtual yield".split()
+)
+
+
 def _get_doc(doc: Optional[str]) -> str:
     if doc:
         return lines_to_doc_comments(doc.splitlines(keepends=False))
@@ -577,7 +586,7 @@ def generate_property(
         else []
     )
 
-    if prop_name in ["type"]:
+    if prop_name in RUST_KEYWORDS:
         prop_name = f"{prop_name}_"
         if optional:
             optional = [
